@@ -7,7 +7,7 @@
 //! floor (the observer), i.e. the caller-side clone is still alive.
 //! The borrowed-child scenarios are a KNOWN FINDING and live in their own harnesses.
 
-use crate::corpus::{Consume, ConsumeCtxBox, ConsumeRetTmp};
+use crate::corpus::{Consume, ConsumeCtxBox, ConsumeRetTmp, GrpC, GrpCBase, Reader};
 use crate::corpus2::*;
 use cglue::trait_group::{c_void, CGlueObjContainer};
 use cglue::prelude::v1::*;
@@ -222,6 +222,35 @@ nd::harnesses! {
         assert!(std::sync::Arc::strong_count(&big) == 1, "after all derived objects are dropped the count is back to its starting value");
         drop(big);
         assert!(live() == 0 && drops() == made());
+    }
+
+    /// A by-value call on a GROUP object (directly, or on the result of a cast): the group's context reference is handed
+    /// over and released exactly once - the count is back to its starting value afterwards.
+    #[kani::unwind(4)]
+    fn c07_group_consuming_call() {
+        reset();
+        ctx_reset();
+        let st: crate::corpus::St = nd::any();
+        let direct = crate::corpus::St { val: st.val, calls: core::cell::Cell::new(0), last: core::cell::Cell::new(0), dig: core::cell::Cell::new(st.dig.get()), guard: Pay::new(0) };
+        let base = Ctx::new();
+        {
+            let grp = group_obj!((st, base.clone()) as GrpC);
+            assert!(ctx_live() == 2);
+            let via_cast: bool = nd::any();
+            nd::cover!(via_cast, "consuming call on a cast result");
+            let r = if via_cast {
+                let c = cast!(grp impl Reader).unwrap();
+                assert!(ctx_live() == 2, "a cast moves the context");
+                c.finish()
+            } else {
+                grp.finish()
+            };
+            assert!(r == direct.finish());
+            assert!(ctx_live() == 1, "the consumed group's context reference is released exactly once");
+        }
+        assert!(ctx_live() == 1);
+        drop(base);
+        assert!(ctx_live() == 0 && live() == 0 && drops() == made());
     }
 
     /// A borrowed child handed out as `&mut` is a derived object with its OWN clone of the context: safe code can move
